@@ -25,6 +25,7 @@ type LoopSpec struct {
 	Invariants []Clause
 	Decreases  *Clause
 	Uses       []*CExpr // lemma instances assumed at the head (after havoc) and at the back edge
+	Steps      []Clause // two-state obligations at the back edge: prev(e) is e at the head of the same iteration
 }
 
 type ParamDecl struct {
@@ -48,12 +49,30 @@ type FuncContract struct {
 	Line        int
 	File        string
 	Ghosts      []string
+	GhostDecls  []GhostDecl   // ghost NAME = INIT: integer ghost variables, initialised at entry
+	GhostSteps  []GhostUpdate // site append: ghost NAME = EXPR: updates executed at every append site, in order
+	StoreSites  map[string][]string // field name -> the only operations whose result may be stored into that field ("append", callee keys)
+	CallGhost   map[string][]GhostUpdate // callsite SIG: ghost NAME = EXPR: updates after a call through a function value ($result)
 	SafetyOff   map[string]string   // safety class -> reason (not claimed)
 	InlineCalls []string            // callees to inline here even though they have a contract
+	HavocCalls  []string            // callees abstracted by "anything may have happened to the heap" (sound over-approximation)
 	CallSites   map[string][]Clause // signature string -> obligations at every call through a function value of that type
 	Unclaimed   map[string]string   // obligation class (e.g. "post:foo") -> reason it is not claimed
+	AppendSites []Clause            // obligations at every append to a []byte in the function ($src, $dst)
 	Alphabet    string              // for bounded search
 	MaxLen      int
+}
+
+type GhostDecl struct {
+	Name  string
+	Init  *CExpr
+	Array bool // an int-indexed ghost array, every element initialised to Init
+}
+
+type GhostUpdate struct {
+	Name string
+	Expr *CExpr
+	Text string
 }
 
 type SpecFunc struct {
@@ -97,7 +116,7 @@ type Contracts struct {
 
 var clauseKeywords = map[string]bool{"requires": true, "ensures": true, "loop": true, "modifies": true, "serves": true,
 	"use": true, "inline": true, "trusted": true, "status:": true, "pure": true, "induction": true, "trigger": true,
-	"nosafety": true, "alphabet": true, "maxlen": true, "decreases": true, "ih": true, "unclaimed": true, "inlinecall": true, "callsite": true}
+	"nosafety": true, "alphabet": true, "maxlen": true, "decreases": true, "ih": true, "unclaimed": true, "inlinecall": true, "callsite": true, "site": true, "havoccall": true, "ghost": true}
 
 func loadContracts(dirs map[string]string) (*Contracts, error) {
 	cs := &Contracts{Funcs: map[string]*FuncContract{}, Specs: map[string]*SpecFunc{}, Lemmas: map[string]*Lemma{}}
@@ -380,6 +399,16 @@ func (cs *Contracts) parseFunc(pkg, file string, e *rawEntry) error {
 					cl.Label = strconv.Itoa(len(ls.Invariants))
 				}
 				ls.Invariants = append(ls.Invariants, cl)
+			case strings.HasPrefix(rest, "step"):
+				label, ex := splitLabel("step", rest)
+				cl, err := mkClause(file, c.line, label, ex)
+				if err != nil {
+					return err
+				}
+				if cl.Label == "" {
+					cl.Label = strconv.Itoa(len(ls.Steps))
+				}
+				ls.Steps = append(ls.Steps, cl)
 			case strings.HasPrefix(rest, "decreases"):
 				cl, err := mkClause(file, c.line, "dec", strings.TrimSpace(strings.TrimPrefix(rest, "decreases")))
 				if err != nil {
@@ -433,6 +462,23 @@ func (cs *Contracts) parseFunc(pkg, file string, e *rawEntry) error {
 		case "callsite":
 			// callsite <signature>: requires[label] EXPR
 			rest := strings.TrimSpace(strings.TrimPrefix(c.text, "callsite"))
+			if j := strings.Index(rest, ": ghost "); j >= 0 {
+				sig := strings.TrimSpace(rest[:j])
+				g := strings.TrimSpace(rest[j+len(": ghost "):])
+				eq := strings.Index(g, "=")
+				if eq < 0 {
+					return fmt.Errorf("line %d: callsite SIG: ghost NAME = EXPR", c.line)
+				}
+				ex, err := parseCExpr(strings.TrimSpace(g[eq+1:]))
+				if err != nil {
+					return fmt.Errorf("line %d: %v", c.line, err)
+				}
+				if fc.CallGhost == nil {
+					fc.CallGhost = map[string][]GhostUpdate{}
+				}
+				fc.CallGhost[sig] = append(fc.CallGhost[sig], GhostUpdate{Name: strings.TrimSpace(g[:eq]), Expr: ex, Text: g})
+				continue
+			}
 			j := strings.Index(rest, ": requires")
 			if j < 0 {
 				return fmt.Errorf("line %d: callsite SIG: requires EXPR", c.line)
@@ -450,6 +496,71 @@ func (cs *Contracts) parseFunc(pkg, file string, e *rawEntry) error {
 				cl.Label = strconv.Itoa(len(fc.CallSites[sig]))
 			}
 			fc.CallSites[sig] = append(fc.CallSites[sig], cl)
+		case "site":
+			// site append: requires[label] EXPR
+			rest := strings.TrimSpace(strings.TrimPrefix(c.text, "site"))
+			if strings.HasPrefix(rest, "store ") {
+				// site store FIELD: from append, callee, ...
+				j := strings.Index(rest, ": from")
+				if j < 0 {
+					return fmt.Errorf("line %d: site store FIELD: from OP, ...", c.line)
+				}
+				field := strings.TrimSpace(rest[len("store "):j])
+				if fc.StoreSites == nil {
+					fc.StoreSites = map[string][]string{}
+				}
+				for _, m := range strings.Split(rest[j+len(": from"):], ",") {
+					if m = strings.TrimSpace(m); m != "" {
+						fc.StoreSites[field] = append(fc.StoreSites[field], m)
+					}
+				}
+				continue
+			}
+			if !strings.HasPrefix(rest, "append:") {
+				return fmt.Errorf("line %d: site append: requires EXPR", c.line)
+			}
+			rest = strings.TrimSpace(strings.TrimPrefix(rest, "append:"))
+			if strings.HasPrefix(rest, "ghost ") {
+				g := strings.TrimSpace(strings.TrimPrefix(rest, "ghost "))
+				eq := strings.Index(g, "=")
+				if eq < 0 {
+					return fmt.Errorf("line %d: site append: ghost NAME = EXPR", c.line)
+				}
+				ex, err := parseCExpr(strings.TrimSpace(g[eq+1:]))
+				if err != nil {
+					return fmt.Errorf("line %d: %v", c.line, err)
+				}
+				fc.GhostSteps = append(fc.GhostSteps, GhostUpdate{Name: strings.TrimSpace(g[:eq]), Expr: ex, Text: g})
+				continue
+			}
+			label, ex := splitLabel("requires", rest)
+			cl, err := mkClause(file, c.line, label, ex)
+			if err != nil {
+				return err
+			}
+			if cl.Label == "" {
+				cl.Label = strconv.Itoa(len(fc.AppendSites))
+			}
+			fc.AppendSites = append(fc.AppendSites, cl)
+		case "ghost":
+			g := strings.TrimSpace(strings.TrimPrefix(c.text, "ghost"))
+			eq := strings.Index(g, "=")
+			if eq < 0 {
+				return fmt.Errorf("line %d: ghost NAME = EXPR", c.line)
+			}
+			ex, err := parseCExpr(strings.TrimSpace(g[eq+1:]))
+			if err != nil {
+				return fmt.Errorf("line %d: %v", c.line, err)
+			}
+			gname := strings.Fields(g[:eq])[0]
+			isArr := strings.HasSuffix(gname, "[]")
+			fc.GhostDecls = append(fc.GhostDecls, GhostDecl{Name: strings.TrimSuffix(gname, "[]"), Init: ex, Array: isArr})
+		case "havoccall":
+			for _, m := range strings.Split(strings.TrimSpace(strings.TrimPrefix(c.text, "havoccall")), ",") {
+				if m = strings.TrimSpace(m); m != "" {
+					fc.HavocCalls = append(fc.HavocCalls, m)
+				}
+			}
 		case "inlinecall":
 			for _, m := range strings.Split(strings.TrimSpace(strings.TrimPrefix(c.text, "inlinecall")), ",") {
 				if m = strings.TrimSpace(m); m != "" {
